@@ -1075,6 +1075,21 @@ example : (match classify D1.toAnswers o1 (str! "unsetupRequired(b)\n") with
     | .ok c => c == .setup (str! "unsetupRequired(b)\n") none
     | .error _ => false) = true := by decide +kernel
 
+/-- **D74** (open finding): the expander ignores the block structure of the table it expands.  `setupRequired(b)` inside
+`if (flavor == Darwin) {` is not applied on Linux, so `b` is rightly not set up (`D4a`: only `a` and `c` are) — yet the
+expansion demands it and refuses the table. -/
+def D4a : AnswerData where
+  sv := [(str! "a", str! "1"), (str! "c", str! "1")]
+  spv := [(str! "a", str! "1"), (str! "c", str! "1")]
+  deps := [((str! "c", str! "1"), some [])]
+
+theorem C17_d74_witness :
+    (match expandItems D4a.toAnswers o1
+        [str! "setupRequired(c)\n", str! "if (flavor == Darwin) {\n", str! "setupRequired(b)\n", str! "}\n"] with
+      | .error .notSetup => true
+      | _ => false) = true := by
+  decide +kernel
+
 /-- **D72** (open finding): the hypothesis `Covered` is not a formality.  Answers as the real code gives them for the table
 `setupRequired(d)`, `setupRequired(c)`, `setupRequired(b)` when `d` takes `f` away again, `c` takes `e` away and `b` sets
 `e` — and with it `f` — up again: `f 1` is set up, but no listing mentions it (`Table.dependencies` removed it by name
